@@ -186,7 +186,8 @@ def md019(d, cfg):
     for h in d.headings:
         if h.markup.startswith("#"):
             ln = d.lines[h.map[0]]
-            if h.level != 0 or "\t" in ln:
+            if h.level != 0 or "\t" in ln or ln.rstrip().endswith("#"):
+                # closed Atx headings are the business of MD021; this page does not say whether MD019 also fires
                 silent.add(h.map[0] + 1)
                 continue
             m = re.match(r"^ {0,3}#{1,6}( +)\S", ln)
